@@ -315,14 +315,17 @@ def processChain (rec : J) : Verdict := Id.run do
           v := v.addCorr "chain" (.obj [("real", match firstDiff with | some p => rtokJson p.1 | none => jnat fin.tokens.length),
                                         ("model", match firstDiff with | some p => rtokJson p.2 | none => jnat expected.length)])
         -- composition, token by token and independently of the model of chaining: two-step lookup
+        -- (when the rewrite map has several tokens at one generated position, the chained token answers for one of them)
         for t in fin.tokens do
-          let two := (rtokLookup rw.tokens t.genLine t.genCol).bind fun r =>
-            match r.src with
+          let step2 := fun (r : RTok) => match r.src with
             | some (_, l, c) => rtokLookup orig l c
             | none => none
-          match two with
+          let here := rw.tokens.filter fun r => r.genLine == t.genLine && r.genCol == t.genCol
+          let cands := if here.isEmpty then (rtokLookup rw.tokens t.genLine t.genCol).toList else here
+          let twos := cands.filterMap step2
+          match twos.getLast? with
           | some o =>
-            if t.src != o.src || t.name != o.name then
+            if !(twos.any fun o => t.src == o.src && t.name == o.name) then
               v := v.addCheck "C10:chained-token-differs-from-two-step-lookup"
                 (.obj [("chained", rtokJson t), ("two_step", rtokJson o)])
               break
@@ -337,9 +340,10 @@ def processChain (rec : J) : Verdict := Id.run do
             match rtokLookup orig l c with
             | some o =>
               if o.src.isSome then
+                let hereF := fin.tokens.filter fun t => t.genLine == r.genLine && t.genCol == r.genCol
                 match rtokLookup fin.tokens r.genLine r.genCol with
                 | some got =>
-                  if got.src != o.src then
+                  if got.src != o.src && !(hereF.any fun t => t.src == o.src) then
                     v := v.addCheck "C10:position-of-a-rewrite-token-resolves-differently-in-the-emitted-map"
                       (.obj [("at", .arr [jnat r.genLine, jnat r.genCol]), ("emitted", rtokJson got), ("two_step", rtokJson o)])
                     break
